@@ -74,6 +74,32 @@ def spec_tokens(text):
     return out
 
 
+def strip_comments(text):
+    """translation phase 3 on an ASCII text without splices: each comment becomes one blank; None for an unterminated comment or literal"""
+    out, i, n = [], 0, len(text)
+    while i < n:
+        c = text[i]
+        if text.startswith("/*", i):
+            j = text.find("*/", i + 2)
+            if j < 0:
+                return None
+            out.append(" "); i = j + 2; continue
+        if text.startswith("//", i):
+            j = text.find("\n", i)
+            if j < 0:
+                j = n
+            out.append(" "); i = j; continue
+        if c in "\"'":
+            j = i + 1
+            while j < n and text[j] != c and text[j] != "\n":
+                j += 1
+            if j >= n or text[j] != c:
+                return None
+            out.append(text[i:j + 1]); i = j + 1; continue
+        out.append(c); i += 1
+    return "".join(out)
+
+
 def kind_of_constant(sp, cls):
     if cls == "int": return "IntegerConstantToken"
     if cls == "float": return "FloatingConstantToken"
@@ -295,6 +321,22 @@ def run(ctx):
     texts += [(b"a " if j % 2 else b"") + b"".join(p) for j, p in enumerate(tri if not ctx.quick else rng.sample(tri, 8000))]
     # every punctuator followed by every 1- and 2-symbol continuation
     texts += [b"a " + p.encode() + b"".join(q) for p in list(PUNCT) + list(TRIGRAPHS) for n in (1, 2) for q in itertools.product(alpha, repeat=n)]
+    # comment shapes: every string over the characters that matter inside and around comments, alone and followed by a closer
+    calpha = [b"/", b"*", b"!", b"x", b" ", b"\n"]
+    for n in range(1, (5 if ctx.quick else 7) + 1):
+        for p_ in itertools.product(calpha, repeat=n):
+            c = b"".join(p_)
+            if b"/" not in c:
+                continue
+            texts.append(b"a" + c + b"b")
+            texts.append(b"a " + c + b" y */ b")
+    # literal shapes: quotes, backslashes, line ends, prefixes
+    lalpha = [b"\"", b"'", b"\\", b"\n", b"a", b"x", b"0", b"u", b"8", b"L"]
+    for n in range(1, (4 if ctx.quick else 5) + 1):
+        for p_ in itertools.product(lalpha, repeat=n):
+            c = b"".join(p_)
+            if b"\"" in c or b"'" in c or b"\\" in c:
+                texts.append(b"a " + c + b" b")
     for _ in range(3000 if ctx.quick else 60000):
         texts.append(b"".join(rng.choice(alpha + [b"0x", b"1.", b"e+", b"//", b"/*", b"*/", b"u8", b"LR\"", b"R\"x(", b")x\"", b"# ", b"\n#", b"line", b"\x00", b"\xff", b"\xe4\xb8\xad", b"\xf0\x9f\x98\x80"])
                               for _ in range(rng.randrange(1, 14))))
@@ -326,6 +368,17 @@ def run(ctx):
                 size = len(t) if nul < 0 else nul
                 if not why and (toks[-1][0] != "EndOfFile" or toks[-1][1] != size): why = "the stream does not end with EndOfFile at %d" % size
                 if not why and end > size: why = "a token extends beyond the text"
+            if not why and toks:
+                # second oracle: comments replaced per translation phase 3, then the independent tokenizer
+                try:
+                    tx = t.decode("ascii")
+                except UnicodeDecodeError:
+                    tx = None
+                exp = spec_tokens(strip_comments(tx)) if tx is not None and "\\" not in tx and "#" not in tx and "\x00" not in tx and "??" not in tx and strip_comments(tx) is not None else None
+                if exp is not None and "R\"" not in tx:
+                    got = [t[k[1]:k[1] + k[2]].decode("ascii", "replace") for k in toks if k[0] != "EndOfFile"]
+                    if got != [sp for sp, _ in exp]:
+                        why = "the token spellings are %s; the C11 grammar (comments being separators) prescribes %s" % (got[:8], [sp for sp, _ in exp][:8])
             if why:
                 if nviol < 5:
                     ctx.report("extent:" + t[:40].hex(), "text %r: %s" % (t[:200], why), {"component": "lex", "case": l})
